@@ -184,7 +184,7 @@ func conclude(prop, tier string, seed int64, fam *Family, results []instResult, 
 	}
 
 	// aggregate
-	var paths, queries, steps, events, schedQ, unknowns int
+	var paths, queries, steps, events, schedQ, unknowns, fallbacks int
 	var solverS float64
 	ends := map[string]int{}
 	funcs := map[string]bool{}
@@ -204,6 +204,7 @@ func conclude(prop, tier string, seed int64, fam *Family, results []instResult, 
 		events += rep.Events
 		schedQ += rep.SchedQ
 		unknowns += rep.Unknowns
+		fallbacks += rep.Solver.Fallbacks
 		strata[r.inst.Stratum]++
 		for k, n := range rep.Ends {
 			ends[k] += n
@@ -422,7 +423,7 @@ func conclude(prop, tier string, seed int64, fam *Family, results []instResult, 
 			"transitions":                   queries,
 			"traces_validated_against_impl": validated,
 			"samples":                       samples,
-			"explanation":                   "states = symbolic paths explored (each is one control path of the real SSA with its event structure); transitions = SMT queries discharged (branch feasibility, assertions, schedule queries); traces validated = sampled paths whose solver model was run against the native build and whose event trace and assertions agreed",
+			"explanation":                   "solver_fallbacks = queries the incremental z3 session answered unknown within 20 s and a fresh non-incremental run of z3 4.8.12 / z3 5.1 / cvc5 decided; states = symbolic paths explored (each is one control path of the real SSA with its event structure); transitions = SMT queries discharged (branch feasibility, assertions, schedule queries); traces validated = sampled paths whose solver model was run against the native build and whose event trace and assertions agreed",
 			"technique":                     "symbolic execution of go/ssa of /repo + SMT (z3)",
 			"harness_instances":             len(results),
 			"strata":                        strata,
@@ -432,6 +433,7 @@ func conclude(prop, tier string, seed int64, fam *Family, results []instResult, 
 			"schedule_queries":              schedQ,
 			"solver_seconds":                solverS,
 			"solver_unknown":                unknowns,
+			"solver_fallbacks":              fallbacks,
 			"load_seconds":                  loadS,
 			"bridge_texts_parsed_natively":  bridge.Texts,
 			"functions_encoded":             fl,
